@@ -27,6 +27,7 @@ var modelled = map[string]string{
 	"http.ParseTime": "T-time", "time.(Time).UnixNano": "T-time",
 	"path.IsAbs": "T-path",
 	"strings.SplitN": "T-strings",
+	"path.Clean": "T-path", "filepath.Join": "T-path", "filepath.FromSlash": "T-path", "filepath.ToSlash": "T-path", "filepath.Rel": "T-path",
 	"url.Parse": "T-url", "url.(*URL).String": "T-url",
 }
 
@@ -314,6 +315,33 @@ func (x *Exec) modelCall(st *State, fr *Frame, key string, cc *ssa.CallCommon, a
 		return Val{T: rt, Tup: []Val{{T: tup.At(0).Type(), Term: ite(ok, ref, "0")}, {T: tError, Term: e}}}, true
 	case "path.IsAbs":
 		return b(fmt.Sprintf("(str.prefixof \"/\" %s)", args[0].Term))
+	case "path.Clean":
+		// pclean, fjoin, frel are declared (with their T-path axioms) by /verif/specs/os.spec
+		if _, ok := x.rawFuncs["pclean"]; !ok {
+			return Val{}, false
+		}
+		return b(fmt.Sprintf("(pclean %s)", args[0].Term))
+	case "filepath.FromSlash", "filepath.ToSlash":
+		return b(args[0].Term) // Linux path separator
+	case "filepath.Join":
+		if _, ok := x.rawFuncs["fjoin"]; !ok {
+			return Val{}, false
+		}
+		elems, ok := x.varargs(st, fr, cc.Args[0])
+		if !ok || len(elems) != 2 {
+			return Val{}, false
+		}
+		return b(fmt.Sprintf("(fjoin %s %s)", elems[0].Term, elems[1].Term))
+	case "filepath.Rel":
+		if _, ok := x.rawFuncs["frel"]; !ok {
+			return Val{}, false
+		}
+		x.use(id)
+		okT := fmt.Sprintf("(frelOk %s %s)", args[0].Term, args[1].Term)
+		e := x.newSym(st, "relerr", "Iface")
+		st.assume(fmt.Sprintf("(= (= %s nilI) %s)", e, okT))
+		st.assume(fmt.Sprintf("(=> (not (= %s nilI)) (and (= (asHTTP %s) 0) (= (asDavErr %s) 0) (= (asPathErr %s) 0) (not (hostPath %s)) (not (isNotExist %s)) (not (isExist %s)) (not (isPerm %s)) (not (isDeadline %s))))", e, e, e, e, e, e, e, e, e))
+		return Val{T: rt, Tup: []Val{{T: tString, Term: ite(okT, fmt.Sprintf("(frel %s %s)", args[0].Term, args[1].Term), `""`)}, {T: tError, Term: e}}}, true
 	case "http.StatusText":
 		x.C.decl("(declare-fun statusText (Int) String)")
 		return b(fmt.Sprintf("(statusText %s)", args[0].Term))
